@@ -60,10 +60,12 @@ def waxpbyE (len : Nat) (a : α) (x : Array α) (b : α) (y : Array α) (site : 
   if len != x.size || len != y.size then throw (.panic ("waxpby: length " ++ site))
   else pure (Vec.waxpby a x b y)
 
-/-- `solve_constant_rhs`: `workx = −q` (as `−1·q + 0·workx`), rhs `(workx, b)` → `(x2, z2)` -/
+/-- `solve_constant_rhs`: `workx = −q` (`workx.scalarop_from(|q| -q, &data.q)` since /repo 1706c1f —
+a `zip` without length assert; before it was `−1·q + 0·workx`, which read the stale `workx`),
+rhs `(workx, b)` → `(x2, z2)` -/
 def KktSys.solveConstantRhs (S : KktSys α) (data : ProblemData α) (st : LinSettings α) :
     MErr (Bool × KktSys α) := do
-  let workx ← axpbyE (-(1 : α)) data.q 0 S.workx "solve_constant_rhs"
+  let workx := Vec.scalaropFrom S.workx (fun q => -q) data.q
   let K ← S.kktsolver.setrhs workx data.b
   let (ok, lx, lz, K) ← K.solve st
   let S := { S with workx, kktsolver := K }
@@ -137,7 +139,7 @@ def KktSys.solveInitialPoint (S : KktSys α) (vars : Vars α) (data : ProblemDat
     let S := { S with workx, workz, kktsolver := K }
     if !ok then pure (false, vars, S) else
     -- rhs [−q; 0] → z
-    let workx ← axpbyE (-(1 : α)) data.q 0 S.workx "workx"
+    let workx := Vec.scalaropFrom S.workx (fun q => -q) data.q
     let workz := S.workz.map (fun _ => (0 : α))
     let K ← S.kktsolver.setrhs workx workz
     let (ok, _, lz, K) ← K.solve st
